@@ -2,6 +2,8 @@ package route
 
 import (
 	"strings"
+
+	"github.com/gobwas/glob"
 )
 
 // matcher determines whether a host/path matches a route
@@ -22,7 +24,20 @@ func prefixMatcher(uri string, r *Route) bool {
 
 // globMatcher matches path to the routes' path using gobwas/glob.
 func globMatcher(uri string, r *Route) bool {
-	return r.Glob.Match(uri)
+	return globMatch(r.Glob, uri)
+}
+
+// globMatch reports whether g matches s. gobwas/glob compiles some malformed
+// patterns like "foo{" or "foo{}" without error into matchers which panic on
+// certain inputs. Such a pattern matches nothing instead of taking down the
+// request or the process.
+func globMatch(g glob.Glob, s string) (ok bool) {
+	defer func() {
+		if recover() != nil {
+			ok = false
+		}
+	}()
+	return g.Match(s)
 }
 
 // iPrefixMatcher matches path to the routes' path ignoring case
